@@ -37,7 +37,10 @@ def status_figures(s):
         if l.startswith('{'):
             kf.append(json.loads(l))
     out = []
-    for line in s.split('\n'):
+    a = s.index('### 0A.3 Per-property status')
+    b = s.index('(The numbers are those of the committed inventories')
+    head, region, tail = s[:a], s[a:b], s[b:]
+    for line in region.split('\n'):
         m = re.match(r'\| (C\d\d) \| ([^|]*) \| ([^|]*) \|(.*)$', line)
         inv = os.path.join(ROOT, 'obligations', f'{m.group(1)}.json') if m else None
         if m and os.path.exists(inv) and 'obligations (proof-level' not in line:
@@ -49,12 +52,29 @@ def status_figures(s):
             fig = f'{len(d) - b - (kn - kb)}{f" (+{kn - kb} known)" if kn - kb else ""} / {b}{f" ({kb} of them known)" if kb else ""}'
             line = f'| {m.group(1)} | {m.group(2)} | {fig} |{m.group(4)}'
         out.append(line)
-    return '\n'.join(out)
+    return head + '\n'.join(out) + tail
+
+
+def asbuilt_paragraphs(s):
+    """the 'As built' paragraph of every property <- the claim texts of tools/manifest.py"""
+    import runpy
+    g = runpy.run_path(os.path.join(ROOT, 'tools', 'manifest.py'))
+    for pid, c in g['CLAIMS'].items():
+        note = c.get('note', '').replace(g['BOUNDED_NOTE'], '(bounded store model, see 0A.2) ').replace(
+            g['TOPO_NOTE'], '(scenario programs over the bounded graph model, see 0A.2) ')
+        m = re.search(r'(### ' + pid + r' — [^\n]*\n\n)\*\*As built\*\*.*?(\n\n\*Plan \(written before the code\):\*)', s, flags=re.S)
+        if not m:
+            continue
+        para = (f"**As built** (claimed level: `{c.get('category', 'proof')}`; `./check {pid}`; contracts in `contracts/{pid}.py`).  "
+                f"{c['text']}\n\nAssumptions and limits: {note}  Deciding method: {c['technique']}.")
+        s = s[:m.start()] + m.group(1) + para + m.group(2) + s[m.end():]
+    return s
 
 
 def main():
     p = os.path.join(ROOT, 'DESIGN.md')
     s = open(p).read()
+    s = asbuilt_paragraphs(s)
     import importlib
     man = importlib.import_module('manifest') if False else None
     # seeded table
